@@ -18,6 +18,9 @@ CLAIMS = {
  "C02": ("Bounded-exhaustive enumeration of route lists x streams x segmentations x end modes plus rapid-generated larger instances, each decided by a validity predicate over the recorded handler trace (route matched on the bytes available, order, no decided-matching route skipped, nothing after a terminal route, fallback exactly once with the stream intact, no fall-through or abandonment while a route is undecided). The small scope is complete for its bounds; beyond it the search is sampled.",
          "Harness matchers/handlers (pure functions of the available bytes; recording handlers) stand in for shipped ones so that the oracle can recompute verdicts; RouteList.Compile, the shipped `not` matcher and `subroute` handler are the code under test; virtual time for the matching deadline.",
          "bounded-exhaustive enumeration + property-based testing (rapid); trace validity predicate"),
+ "C01": ("Model-based generated search: every case is a generated client stream, segmentation and route list whose expected per-handler byte ranges are computed by a reference consumer model; byte equality is required of every recorder, tee branch and echoed stream, through RouteList.Compile on scripted connections, behind real TLS termination and through Server.handle over loopback TCP. Sampled, not exhaustive.",
+         "Harness recorder/take handlers and position-coded streams; crypto/tls as the client; the shipped tls, proxy_protocol, throttle, tee, subroute, echo handlers are under test together with Connection/Compile.",
+         "property-based testing (rapid) against a reference consumer model"),
 }
 NOT_YET = "check not built yet in this session (planned, see DESIGN.md); not claimed until it is"
 
